@@ -114,6 +114,12 @@ def run(tier, seed, t0):
                 for b in range(1, 13 - a):
                     if a + b >= 4:
                         cases.append({"kind": "block", "multiset": x * a + y * b, "perms": False})
+    # long homopolymers and two-residue blocks (counters and accumulators beyond 127 / 255 / 1000 residues)
+    for x in T.AA:
+        for n in ((130, 300) if tier == "quick" else (130, 257, 300, 1000)):
+            cases.append({"kind": "block", "multiset": x * n, "perms": False})
+            y = T.AA[(T.AA.index(x) + 7) % 20]
+            cases.append({"kind": "block", "multiset": x * (n - 3) + y * 3, "perms": False})
     nsh = 16 * 8
     acc = core.pmap(shard, [cases[i::nsh] for i in range(nsh)])
     res = acc.extra.pop("residues", set())
@@ -122,7 +128,7 @@ def run(tier, seed, t0):
     return core.finish(
         PROP, tier, seed, acc, t0,
         rule="every multiset of 1..%d residues over the 20 amino acids with ALL its distinct permutations (= every word of "
-             "that length), plus all homopolymers X^a (a<=12) and two-residue blocks X^a Y^b (4<=a+b<=12); per sequence 18 real "
+             "that length), plus all homopolymers X^a (a<=12) and two-residue blocks X^a Y^b (4<=a+b<=12) and long ones (130..1000 residues); per sequence 18 real "
              "getter calls (counts, fractions, FCR, NCPR, mean net charge, expanding, disorder-promoting, 20 aa fractions, "
              "KD 0-9 / Uversky / Wimley-White hydropathy, 3 PPII scales, molecular weight) compared with exact sums over pinned "
              "published tables, 5 identities, and equality across permutations; non-trivial = multisets with >=2 distinct "
